@@ -78,6 +78,10 @@ func domLiveness(env *Env) error {
 			env.Sample(op + " => " + res.obs)
 		}
 	}
+	// ---- generated: undelegations that are slashed while unbonding, then mature
+	for i := 0; i < env.Int("slashruns", 8); i++ {
+		undelegationSlashRun(env, seed*70+uint64(i))
+	}
 	if env.Int("directed", 1) == 1 {
 		for _, sc := range []struct {
 			name string
@@ -252,6 +256,176 @@ func runLiveSequence(env *Env, seed uint64, blocks, tail int, chainID string) li
 	env.Report.Outcomes["blocks.evidence"] += evid
 	res.obs = fmt.Sprintf("halt=%v det(tx=%d ok=%d keeper=%d epochs=%d valupd=%d) abci(evidence=%d downtime=%d)", res.halt != "", st.txs, st.txOK, st.keeperOK, st.epochs, st.valUpdates, evid, down)
 	return res
+}
+
+// undelegationSlashRun: the native token is registered as a staking asset, the funded account delegates
+// it to a validator's operator, undelegates part or all of it, the operator is slashed 1-3 times while
+// the undelegation is unbonding (x/slashing's and x/evidence's entry point
+// StakingKeeper.SlashWithInfractionReason, infraction height before the undelegation, fractions up to
+// 100 %, distinct infraction kinds and heights), then the chain runs until the record matures and the
+// delegation EndBlocker pays it out. An LST undelegation of a second staker goes through the same.
+// Monitors: after every slash 0 <= ActualCompletedAmount <= Amount for every pending record; no halt;
+// the records are gone at the end.
+func undelegationSlashRun(env *Env, seed uint64) {
+	rng := NewRNG(seed ^ 0x5145)
+	op := fmt.Sprintf("uslash.reset seed=%d", seed)
+	hist := []string{op}
+	env.Op(op, "ok")
+	env.Report.Histories++
+	c := NewChainFresh(minuteCfg(seed))
+	step := func(o string) { hist = append(hist, o) }
+	fail := func(mon, sig, what string) {
+		env.Violate(mon, sig, what, hist)
+		env.Op("uslash.result", "violation "+sig)
+	}
+	oi := rng.Intn(len(c.Operators))
+	operator := c.Operators[oi]
+	consAddr := c.ConsKeys[oi].ToConsAddr()
+	staker := c.Funded.Acc
+	lst := NewActor(seed, "lststaker", 0)
+	nativeAddr := common.HexToAddress(assetstypes.ExocoreAssetAddr).Bytes()
+	lstAddr := common.HexToAddress(c.Cfg.Assets[0].Addr).Bytes()
+	amount := sdkmath.NewIntWithDecimal(int64(1+rng.Intn(9)), 18)
+	lstAmount := sdkmath.NewIntWithDecimal(int64(50+rng.Intn(400)), int(c.Cfg.Assets[0].Decimals))
+	err := c.CachedDo(func(ctx sdk.Context) error {
+		if err := c.App.AssetsKeeper.SetStakingAssetInfo(ctx, &assetstypes.StakingAssetInfo{
+			AssetBasicInfo: assetstypes.AssetInfo{Name: "Exocore native token", Symbol: "EXO", Address: assetstypes.ExocoreAssetAddr,
+				Decimals: 18, LayerZeroChainID: assetstypes.ExocoreChainLzID, MetaInfo: "native token"},
+			StakingTotalAmount: sdkmath.ZeroInt(),
+		}); err != nil {
+			return err
+		}
+		if err := c.App.DelegationKeeper.DelegateTo(ctx, &delegationtypes.DelegationOrUndelegationParams{
+			ClientChainID: assetstypes.ExocoreChainLzID, Action: assetstypes.DelegateTo, AssetsAddress: nativeAddr, OperatorAddress: operator.Acc,
+			StakerAddress: staker.Bytes(), OpAmount: amount, LzNonce: 0, TxHash: common.BytesToHash(detBytes(seed, "us", 0))}); err != nil {
+			return fmt.Errorf("native delegate: %w", err)
+		}
+		if err := c.App.AssetsKeeper.PerformDepositOrWithdraw(ctx, &assetskeeper.DepositWithdrawParams{
+			ClientChainLzID: c.LzID, Action: assetstypes.DepositLST, StakerAddress: lst.Eth.Bytes(), AssetsAddress: lstAddr, OpAmount: lstAmount}); err != nil {
+			return err
+		}
+		return c.App.DelegationKeeper.DelegateTo(ctx, &delegationtypes.DelegationOrUndelegationParams{
+			ClientChainID: c.LzID, Action: assetstypes.DelegateTo, AssetsAddress: lstAddr, OperatorAddress: operator.Acc,
+			StakerAddress: lst.Eth.Bytes(), OpAmount: lstAmount, LzNonce: 1, TxHash: common.BytesToHash(detBytes(seed, "us", 1))})
+	})
+	step(fmt.Sprintf("uslash.setup native asset registered; delegate %s hua and %s LST to operator[%d]", amount, lstAmount, oi))
+	if err != nil {
+		env.Op("uslash.result", "setup-rejected "+tailStr(err.Error(), 100))
+		env.Outcome("uslash.setup-rejected")
+		return
+	}
+	blk := func(d time.Duration) bool {
+		r := c.EndAndBegin(d)
+		if r.Halt != "" {
+			fail("C11.halt", "halt:"+sigOfHalt(r.Halt), "block processing panicked (a node would stop): "+r.Halt)
+			return false
+		}
+		return true
+	}
+	if !blk(5 * time.Second) {
+		return
+	}
+	infractionHeight := c.Header.Height
+	if !blk(5 * time.Second) {
+		return
+	}
+	uNative := amount
+	if rng.Chance(1, 3) {
+		uNative = amount.QuoRaw(int64(2 + rng.Intn(3)))
+	}
+	uLst := lstAmount.QuoRaw(int64(1 + rng.Intn(3)))
+	err = c.CachedDo(func(ctx sdk.Context) error {
+		if err := c.App.DelegationKeeper.UndelegateFrom(ctx, &delegationtypes.DelegationOrUndelegationParams{
+			ClientChainID: assetstypes.ExocoreChainLzID, Action: assetstypes.UndelegateFrom, AssetsAddress: nativeAddr, OperatorAddress: operator.Acc,
+			StakerAddress: staker.Bytes(), OpAmount: uNative, LzNonce: 2, TxHash: common.BytesToHash(detBytes(seed, "us", 2))}); err != nil {
+			return fmt.Errorf("native undelegate: %w", err)
+		}
+		return c.App.DelegationKeeper.UndelegateFrom(ctx, &delegationtypes.DelegationOrUndelegationParams{
+			ClientChainID: c.LzID, Action: assetstypes.UndelegateFrom, AssetsAddress: lstAddr, OperatorAddress: operator.Acc,
+			StakerAddress: lst.Eth.Bytes(), OpAmount: uLst, LzNonce: 3, TxHash: common.BytesToHash(detBytes(seed, "us", 3))})
+	})
+	step(fmt.Sprintf("uslash.undelegate native %s, LST %s (height %d, infraction height %d)", uNative, uLst, c.Header.Height, infractionHeight))
+	if err != nil {
+		env.Op("uslash.result", "undelegate-rejected "+tailStr(err.Error(), 100))
+		env.Outcome("uslash.undelegate-rejected")
+		return
+	}
+	nStakerID, nAssetID := assetstypes.GetStakerIDAndAssetID(assetstypes.ExocoreChainLzID, staker.Bytes(), nativeAddr)
+	lStakerID, lAssetID := assetstypes.GetStakerIDAndAssetID(c.LzID, lst.Eth.Bytes(), lstAddr)
+	checkRecords := func(when string) (ok bool, n int) {
+		ok = true
+		for _, ids := range [][2]string{{nStakerID, nAssetID}, {lStakerID, lAssetID}} {
+			recs, err := c.App.DelegationKeeper.GetStakerUndelegationRecords(c.Ctx, ids[0], ids[1])
+			if err != nil {
+				continue
+			}
+			for _, r := range recs {
+				n++
+				env.Eval("C11.undelegation-amount")
+				if r.ActualCompletedAmount.IsNegative() || r.ActualCompletedAmount.GT(r.Amount) {
+					fail("C11.undelegation-amount", "undelegation-amount-out-of-range",
+						fmt.Sprintf("%s: undelegation record of %s has ActualCompletedAmount=%s, Amount=%s (a negative amount panics NewCoin / corrupts the payout when the record matures)", when, ids[1], r.ActualCompletedAmount, r.Amount))
+					ok = false
+				}
+			}
+		}
+		return
+	}
+	if !blk(5 * time.Second) {
+		return
+	}
+	nSlash := 1 + rng.Intn(3)
+	effective := 0
+	for i := 0; i < nSlash; i++ {
+		info, err := c.App.OperatorKeeper.CalculateUSDValueForOperator(c.Ctx, true, operator.Acc.String(), nil, nil, nil)
+		if err != nil || !info.StakingAndWaitUnbonding.IsPositive() {
+			break
+		}
+		power := info.StakingAndWaitUnbonding.TruncateInt64()
+		frac := sdk.NewDecWithPrec([]int64{10, 30, 60, 60, 90, 100}[rng.Intn(6)], 2)
+		inf := []stakingtypes.Infraction{stakingtypes.Infraction_INFRACTION_DOUBLE_SIGN, stakingtypes.Infraction_INFRACTION_DOWNTIME, stakingtypes.Infraction_INFRACTION_UNSPECIFIED}[i%3]
+		ih := infractionHeight - int64(rng.Intn(2))
+		before, _ := c.App.DelegationKeeper.GetStakerUndelegationRecords(c.Ctx, nStakerID, nAssetID)
+		halt := ""
+		func() {
+			defer recoverTo(&halt, "BeginBlock(slashing->dogfood.SlashWithInfractionReason)")
+			c.App.StakingKeeper.SlashWithInfractionReason(c.Ctx, consAddr, ih, power, frac, inf)
+		}()
+		step(fmt.Sprintf("uslash.slash #%d operator[%d] infraction=%s height=%d power=%d fraction=%s", i+1, oi, inf, ih, power, frac))
+		if halt != "" {
+			fail("C11.halt", "halt:"+sigOfHalt(halt), "slash panicked: "+halt)
+			return
+		}
+		after, _ := c.App.DelegationKeeper.GetStakerUndelegationRecords(c.Ctx, nStakerID, nAssetID)
+		if len(before) > 0 && len(after) > 0 && after[0].ActualCompletedAmount.LT(before[0].ActualCompletedAmount) {
+			effective++
+		}
+		checkRecords(fmt.Sprintf("after slash #%d", i+1)) // on a violation keep going: the record still has to mature
+		if !blk(5 * time.Second) {
+			return
+		}
+	}
+	env.Outcome(fmt.Sprintf("uslash.effective-slashes=%d", effective))
+	// until both records matured: completion height = undelegation height + 10, plus the dogfood hold
+	for i := 0; i < 8; i++ {
+		if !blk(time.Minute + time.Second) {
+			return
+		}
+		for j := 0; j < 2; j++ {
+			if !blk(5 * time.Second) {
+				return
+			}
+		}
+	}
+	_, left := checkRecords("at the end")
+	step("uslash.blocks until matured")
+	env.Eval("C11.undelegation-released")
+	if left != 0 {
+		fail("C11.undelegation-released", "undelegation-not-released", fmt.Sprintf("%d undelegation records still pending after 8 epochs / 24 blocks", left))
+		return
+	}
+	env.DistinctKey(fmt.Sprintf("uslash-%d-%d-%d", seed, nSlash, effective))
+	env.Op("uslash.result", fmt.Sprintf("ok slashes=%d effective=%d", nSlash, effective))
 }
 
 // ---------------------------------------------------------------- directed scenarios
